@@ -158,7 +158,7 @@ def main():
                     shutil.copy(r["file"], os.path.join(gen_dir, os.path.basename(r["file"])))
         # ---------------- Engine K ----------------
         t = run_kani.load_table()
-        hs = [h for h in t.HARNESSES.get(args.pid, []) if tier == "thorough" or h["tier"] == "quick"]
+        hs = [h for h in t.HARNESSES.get(args.pid, []) if h["tier"] == "quick" or (tier == "thorough" and h["tier"] == "thorough")]
         if hs:
             try:
                 mods = sorted({h["module"] for h in hs})
